@@ -6,6 +6,18 @@ ROOT = os.path.dirname(os.path.dirname(os.path.abspath(__file__)))
 
 # id -> dict(engine, category, technique, text, note, design_ref) ; absent => not_applicable with reason
 CHECKS = {
+    "C10": dict(
+        engine="validate", category="exploration",
+        technique="property-based fault injection over valid documents with an independent executable model of the documented validation rules (differential oracle on the exact code set), plus totality (no panic) over value-mutated documents",
+        text="Valid problems from the by-construction generator are turned into JSON values and broken by 1-3 generated faults out of ~90 kinds covering every documented rule (ids, windows, demands, tasks, vehicles, shifts, breaks, reloads, relations, matrices, profiles, objectives) plus undocumented-but-well-formed value faults (malformed dates, wrong arities, empty collections, sparse indices, ragged matrices); the reader must return Ok or Err(codes) without panicking, and the code set must equal the set computed by the harness' own rule model; the third-of-three element and rarely read fields (services, replacements, second shift, required breaks) are targeted on purpose. Found ten defect families in the validator (recorded in known_findings.json, several repaired).",
+        note="Trusted: the rule model in harness/src/engines/validate.rs, derived from docs/src/concepts/pragmatic/errors/index.md. Rules whose documented wording is ambiguous are counted, not asserted (listed in DESIGN.md).",
+        design_ref="4/C10"),
+    "C12": dict(
+        engine="checker", category="exploration",
+        technique="property-based mutation (fault-injection) testing of the checker: solver outputs certified by the reference model as positives, single-breach mutants certified by the reference model as negatives, relations derived from the solution",
+        text="Generated problems are solved; when the independent reference model R finds nothing the checker must accept the solution (also with limits lowered to exactly the used amount); then every single-breach mutant from the listed classes is injected at every applicable site and, when R reports the intended rule family on the mutant, the checker must reject it. Relations read off the solution must be accepted and visibly contradicted relations rejected. Found thirteen checker defects (recorded in known_findings.json, several repaired).",
+        note="Trusted: reference model R for certifying positives and negatives. Mutants R cannot decide (loads at closing arrival stops, first-stop arrival without explicit departure) are counted, not asserted.",
+        design_ref="4/C12"),
     "C11": dict(
         engine="roundtrip", category="exploration",
         technique="property-based round-trip testing (ser/parse/ser idempotence, field-by-field equality, expectation trees), initial-solution reconstruction equality, CSV table model equality, structural JSON mutation",
